@@ -214,7 +214,16 @@ LEVELS['C17'] = 'exploration'
 RULES['C17'] = 'case = mixed program (several signals/types, omission, annotations, UTC, user data) closed, copied with jls_copy; copy decoded as a closed file and its reader dump compared with the source dump; distinct = (signal mix, levels, omission used)'
 ASSUME['C17'] = ['statistics are compared after rounding to f32 (copy recomputes summaries from the same samples)']
 
-CHECKS['C19'] = [file_run('mix', 100, 5000, ['C19'])]
+def crash_run(quick_programs, thorough_programs, props, variant='plain', extra=()):
+    return dict(harness='h_crash', variant=variant, args=list(extra), quick=quick_programs * 16, thorough=thorough_programs * 16, props=props, name='crash')
+
+
+CHECKS['C03'] = [crash_run(6, 300, ['C03'])]
+LEVELS['C03'] = 'fault_enumeration'
+RULES['C03'] = 'program = 1-3 signals of mixed types (1-4 summary levels, omission, annotations/UTC/user data interleaved, late definitions) run under the backend write log; EVERY cut between two writes and byte prefixes of the next write (all prefixes of writes <= 40 bytes, 6 prefixes otherwise; quick: for every 4th write) is materialised and opened by the real reader in its own process; everything exposed must be an unaltered in-order part of what was submitted (samples bit-exact, statistics by the C02 oracle); clause 2 (cut between writes, definitions on disk): open succeeds and at most the block in flight is lost. evaluations = crash images; distinct = program classes'
+ASSUME['C03'] = ['crash model: a prefix of the backend write sequence reaches the disk in order, the last write possibly partially (no reordering of writes by the OS)', 'synchronous writer programs only in this run; files <= ~60 KiB'] + DECODER_ASSUMPTIONS
+
+CHECKS['C19'] = [file_run('mix', 100, 5000, ['C19']), crash_run(3, 100, ['C19'])]
 LEVELS['C19'] = 'fault_enumeration'
 RULES['C19'] = 'closed files: full read mix under the I/O log, 0 writes / no writable open / identical bytes; crash images: see h_crash'
 ASSUME['C19'] = []
@@ -243,6 +252,12 @@ LEVELS['C08'] = 'exploration'
 RULES['C08'] = 'cases 0..k: breadth-first exploration of ALL operation sequences (alloc of every size 0..capacity, pop, peek) of the real queue for one small capacity each (quick 8..24, thorough 8..40), memoised on (head, tail, count, queued regions); remaining cases: 20k-100k random operations on capacities 49..65536 with sizes biased to 0, 1 and within 16 of the capacity. Oracle: reference deque built from the returned pointers; distinct = exploration unit (capacity / random configuration)'
 ASSUME['C08'] = ['"fits contiguously" is judged with a reserve of 12 bytes beyond the 4-byte length prefix (the figure in the property quantifier); the wrap marker is modelled as a queue item that makes the bytes up to the end of the buffer unusable until consumed',
                  'exhaustive only for the small capacities listed in coverage; a capacity whose state space exceeds the state limit is reported as truncated, not complete']
+
+CHECKS['C16'] = [simple_run('h_def', 'def', 300 + 60 + 16, 300 + 60 + 170, ['C16'], extra=['--cpu', '10'])]
+LEVELS['C16'] = 'exploration'
+RULES['C16'] = 'cases 0-299: complete grid {0,1,9,10,11,16,17,31,32,33,63,64,65,100,127,128,129,255,256,257}^4 x 15 types through jls_core_signal_def_validate/_align (relations, minimums, idempotence, zero = per-width default), one (type, samples_per_data) slice per case; cases 300-359: 12k (thorough 200k) sampled tuples each from 4 classes (<=70000, boundary 2^k+-1 / UINT32_MAX-k, mixed, uniform 32-bit); remaining cases: definition -> file -> jls_rd_signal -> second file, parameters identical. A normalisation above 1 CPU-second is a violation. distinct = exploration unit'
+ASSUME['C16'] = ['the 4x32-bit domain is sampled and boundary-biased, not covered: the symbolic query named in the property quantifier is outside this technique family',
+                 '"zero fields take the per-width defaults" is checked as: replacing a zero field by the value the all-zero definition of that width yields gives the same result (no independent table of defaults exists in the documentation)']
 
 # ------------------------------------------------------------------------------------------
 def load_known():
@@ -321,7 +336,7 @@ def run_check(prop, tier, seed, jobs, replay=None):
                 env.setdefault('ASAN_OPTIONS', 'abort_on_error=1:detect_leaks=0:allocator_may_return_null=1:max_allocation_size_mb=2048:handle_abort=1')
                 env.setdefault('UBSAN_OPTIONS', 'print_stacktrace=1')
                 out = open(os.path.join(sc, 'out.jsonl'), 'w+')
-                procs.append((subprocess.Popen(cmd, stdout=out, stderr=subprocess.DEVNULL, env=env), out, cmd))
+                procs.append((subprocess.Popen(cmd, stdin=subprocess.DEVNULL, stdout=out, stderr=subprocess.DEVNULL, env=env), out, cmd))
             for p, out, cmd in procs:
                 rc = p.wait()
                 out.seek(0)
@@ -337,6 +352,8 @@ def run_check(prop, tier, seed, jobs, replay=None):
                     t = rec.get('t')
                     if t == 'done':
                         done = True
+                        evaluations += rec['cases']
+                    elif t == 'inner-done':
                         evaluations += rec['cases']
                     elif t == 'v':
                         if rec['p'] not in run['props'] and rec['p'] != prop:
